@@ -71,10 +71,86 @@ def table_bound(F, base):
     return None, None
 
 
+def _const_data_chars(prog, F, e, depth=0):
+    """characters an expression can denote when it only ever points into compile-time constant data: string literals,
+    const-qualified globals (their initialiser's string / char literals), reached through locals, struct fields,
+    subscripts and parameters (all call sites must qualify).  None if any source is not constant data."""
+    from ..model import N
+    if depth > 5:
+        return None
+    e = e.strip(casts=True)
+    if e.k == "StringLiteral":
+        return {ord(c) if ord(c) < 128 else ord(c) - 256 for c in e.d.get("s", "")} | {0}
+    if e.k in ("ArraySubscriptExpr", "MemberExpr") or (e.k == "UnaryOperator" and e.d["op"] in ("*", "&")):
+        return _const_data_chars(prog, F, e.kids[0], depth)
+    if e.k == "BinaryOperator" and e.d["op"] in ("+", "-"):
+        return _const_data_chars(prog, F, e.kids[0], depth)
+    if e.k == "CallExpr" and e.callee in prog.functions:
+        H = prog.functions[e.callee]
+        out = set()
+        seen = False
+        for r in H.returns():
+            if not r.kids or "NULL" in r.kids[0].mac or r.kids[0].strip(casts=True).cv == 0:
+                continue
+            d = _const_data_chars(prog, H, r.kids[0], depth + 1)
+            if d is None:
+                return None
+            out |= d
+            seen = True
+        return out if seen else None
+    if e.k == "DeclRefExpr":
+        if e.d.get("g"):
+            g = [x for x in prog.globals if x["name"] == e.d["name"] and x.get("init")]
+            if not g or not g[0].get("const"):
+                return None
+            init = N(g[0]["init"], None, "init", None)
+            out = {0}
+            for x in init.walk():
+                if x.k == "StringLiteral":
+                    out |= {ord(c) if ord(c) < 128 else ord(c) - 256 for c in x.d.get("s", "")}
+                elif x.k == "CharacterLiteral":
+                    out.add(x.d["v"] if x.d["v"] < 128 else x.d["v"] - 256)
+            return out
+        if e.d.get("dk") == "Var":
+            defs = local_defs(F, e.d["did"])
+            if not defs:
+                return None
+            out = set()
+            for r, n_ in defs:
+                if r is None:
+                    continue                      # p++ / p += k stay inside the same object
+                if "NULL" in r.mac or r.strip(casts=True).cv == 0:
+                    continue
+                d = _const_data_chars(prog, F, r, depth + 1)
+                if d is None:
+                    return None
+                out |= d
+            return out or None
+        if e.d.get("dk") == "Parm":
+            pi = e.d["pi"]
+            out = set()
+            ncall = 0
+            for G, call in prog.callers_of(F.name):
+                ncall += 1
+                if pi >= len(call.args):
+                    return None
+                d = _const_data_chars(prog, G, call.args[pi], depth + 1)
+                if d is None:
+                    return None
+                out |= d
+            return out if ncall else None
+    return None
+
+
 def _literal_domain(prog, F, origin):
     """If origin is an element of a char array that only ever holds string-literal bytes, return them."""
     if origin.k != "ArraySubscriptExpr":
         return None
+    cd = _const_data_chars(prog, F, origin.kids[0])
+    if cd is not None and origin.kids[0].strip().k != "DeclRefExpr":
+        return cd
+    if cd is not None and origin.kids[0].strip().k == "DeclRefExpr" and origin.kids[0].strip().d.get("dk") == "Parm":
+        return cd
     base = origin.kids[0].strip()
     if base.k != "DeclRefExpr":
         return None
@@ -702,7 +778,7 @@ def r05d_calls(ck, prog):
             g, ",".join(sorted(causes)) or "never", n, ",".join(sorted(callers)),
             R05D_INTERNAL.get(g, "only allocation failures / argument preconditions: outside the property's fault model")))
     ck.inst("R05d", "whole program", "%d call sites of %d status-returning functions examined" % (n_inst, len(st)), prog.config)
-    ck.floor("R05d", n_inst, 2 if "controls" in prog.repo else 150, "status call sites")
+    ck.floor("R05d", n_inst, 2 if "controls" in prog.repo else 100, "status call sites")
     return st
 
 
@@ -1449,6 +1525,10 @@ def r05n(ck, prog):
 
 
 # --------------------------------------------------------------------------- R05o / R05p
+_INF_PROG = [None]
+_INF_DEPTH = [0]
+
+
 def _inf_eval(n, names):
     """three-valued evaluation of a condition with every penalty in `names` bound to +infinity"""
     n = n.strip(casts=True)
@@ -1467,6 +1547,25 @@ def _inf_eval(n, names):
             return None
         f = n.callee.replace("__builtin_", "")
         return {"isfinite": 0, "finite": 0, "isinf": 1, "isinf_sign": 1, "isnan": 0}[f]
+    if n.k == "CallExpr" and n.callee and n.fn is not None and _INF_PROG[0] is not None and n.callee in _INF_PROG[0].functions and _INF_DEPTH[0] < 3:
+        # a predicate helper:  static int ok(const struct aln_param* ap){ return isfinite(ap->gpo) && ...; }
+        H = _INF_PROG[0].functions[n.callee]
+        _INF_DEPTH[0] += 1
+        try:
+            for st in H.body.kids:
+                if st.k == "IfStmt":
+                    cv = _inf_eval(st.child("cond"), names)
+                    rets = [r for r in st.child("then").find("ReturnStmt")] if st.child("then") is not None else []
+                    if cv == 1 and rets and rets[0].kids:
+                        return _inf_eval(rets[0].kids[0], names) if const_value(rets[0].kids[0]) is None else int(bool(const_value(rets[0].kids[0])))
+                    if cv is None and rets:
+                        return None
+                elif st.k == "ReturnStmt" and st.kids:
+                    cvv = const_value(st.kids[0])
+                    return int(bool(cvv)) if cvv is not None else _inf_eval(st.kids[0], names)
+            return None
+        finally:
+            _INF_DEPTH[0] -= 1
     if n.k == "UnaryOperator" and n.d["op"] == "!":
         v = _inf_eval(n.kids[0], names)
         return None if v is None else int(not v)
@@ -1492,6 +1591,7 @@ def r05o(ck, prog):
     """an infinite gap penalty must be rejected before it reaches the DP: for each of gpo/gpe/tgpe some test in
     aln_param_init that is true for +inf sends control to the error exit"""
     F = prog.fn("aln_param_init")
+    _INF_PROG[0] = prog
     for p in ("gpo", "gpe", "tgpe"):
         rejecting = []
         for ifs in F.body.find("IfStmt"):
